@@ -75,7 +75,7 @@ def check(F, rep, tier):
             nfields = len(adt["variants"][0]["fields"])
             dn = clapx.const_str_array(F, fconst, ["cp", [0]]) if fconst is not None else None
             if dn is None:
-                rep.bad("R12.1", "unrecognised-shape:" + short, "cannot read the deserialiser's FIELDS of %s" % short, de.where()); continue
+                rep.undecided("R12.1", "unrecognised-shape:" + short, "cannot read the deserialiser's FIELDS of %s" % short, de.where()); continue
             if sorted(map(str, sn)) == sorted(dn) and len(sn) == nfields:
                 rep.ok("R12.1", "%s: %d fields serialised unconditionally = the deserialiser's FIELDS = the struct's fields" % (short, nfields), sample=sorted(dn), nontrivial_key=short)
             else:
@@ -84,7 +84,7 @@ def check(F, rep, tier):
             dn = clapx.const_str_array(F, vconst, ["cp", [0]]) if vconst is not None else None
             nv = len(adt["variants"])
             if dn is None:
-                rep.bad("R12.1", "unrecognised-shape:" + short, "cannot read the deserialiser's VARIANTS of %s" % short, de.where()); continue
+                rep.undecided("R12.1", "unrecognised-shape:" + short, "cannot read the deserialiser's VARIANTS of %s" % short, de.where()); continue
             if sorted(set(map(str, sn))) == sorted(dn) and len(dn) == nv:
                 rep.ok("R12.1", "%s: %d variants, serialised names = the deserialiser's VARIANTS" % (short, nv), sample=sorted(dn), nontrivial_key=short)
             else:
@@ -110,7 +110,7 @@ def handwritten_pair(F, rep, ty, ser, de):
         if ordered: rep.ok("R12.1", "%s: hand-written pair is the recognised inverse (to_vec().serialize / Vec::deserialize -> from_precedences over an insertion-ordered map)" % short, nontrivial_key=short)
         else: rep.bad("R12.1", "handwritten-order:" + short, "%s serialises through a helper that does not preserve insertion order" % short, ser.where())
     else:
-        rep.bad("R12.1", "unrecognised-shape:handwritten:" + short, "hand-written Serialize/Deserialize of %s is not the recognised inverse pair (ser calls %s, de calls %s)" % (short, s_calls[:4], d_calls[:4]), ser.where())
+        rep.undecided("R12.1", "unrecognised-shape:handwritten:" + short, "hand-written Serialize/Deserialize of %s is not the recognised inverse pair (ser calls %s, de calls %s)" % (short, s_calls[:4], d_calls[:4]), ser.where())
 
 def validate_before_render(F, rep):
     rule = "R12.2"
@@ -388,7 +388,7 @@ def validator_vs_resolver(F, rep):
                 rep.bad(rule, "validator-wider-than-resolver:percent-prefix",
                         "the schema validator accepts any ts() pattern starting with '%%', but the resolver neither tokenises '%%' (alphabet %s) nor has a starts_with('%%') formatting path: such a schema is accepted and the component then silently resolves to nothing" % (rep.extra.get("tokenizer_alphabet"),), iv.where())
         else:
-            rep.bad(rule, "unrecognised-shape:validator-accept:" + a[:30], "unrecognised acceptance path in is_valid_timestamp_pattern: %s" % a, iv.where())
+            rep.undecided(rule, "unrecognised-shape:validator-accept:" + a[:30], "unrecognised acceptance path in is_valid_timestamp_pattern: %s" % a, iv.where())
     rep.floor(rule, "acceptance paths of the timestamp pattern validator", len(acc), 1)
 
 EXPL = ("Structural clauses of C12 decided on the MIR: (R12.1) for every type in Zerv's field-type closure the names passed to serialize_field / serialize_*_variant in the derived Serialize equal the deserialiser's FIELDS / VARIANTS "
